@@ -96,3 +96,289 @@ Example C03_good_round_nonvacuous :
   prop = 7%N /\
   3 * power_for prop (map (fun n => (n, prevote_of prop n)) (map (unlock ex_pol) [ex_n1; ex_n2; ex_n3])) > 2 * 40.
 Proof. vm_compute. repeat split. Qed.
+
+(* ================================================================== progress on the code model
+   (C03/Round.v): one validator's state machine (C02/Model.v) over ARBITRARY states. *)
+From Coq Require Import Lia.
+From TM Require Import C02.ProofsVoteSet C02.ProofsOrder C03.SyncWeak C03.Round C03.Pending C03.Tally C03.SyncModel C03.SyncNet C03.Unsettled C03.SyncExample.
+
+(* (d) no step is a dead end: a timeout the ticker holds for the current height and round and
+   for a step not yet passed (NewHeight / Propose / PrevoteWait / PrecommitWait) moves
+   (height, round, step) strictly forward — or the machine stops on one of enterPrecommit's two
+   consensus-failure panics, which C03_timeouts_no_failure excludes *)
+Theorem C03_timeouts_never_stuck :
+  forall (E : env) (s : cstate) (ti : tinfo) (s' : cstate) (o : list output),
+    cs_halted s = false -> live_timeout s ti ->
+    handle E s (ITimeout ti) = (s', o) ->
+    lt3 (pos s) (pos s') \/
+    (cs_halted s' = true /\ exists o1, precommit_failure (cs_round s) s o1).
+Proof. exact timeouts_never_stuck. Qed.
+Print Assumptions C03_timeouts_never_stuck.
+
+Theorem C03_timeouts_no_failure :
+  forall (s : cstate) (o1 : list output),
+    0 <= cs_round s <= hv_round (cs_votes s) ->
+    (forall pb ph, cs_pblock s = Some pb -> b_valid pb = false ->
+                   o_maj23 (prevotes (cs_votes s) (cs_round s)) <> Some (Some (b_hash pb, ph))) ->
+    precommit_failure (cs_round s) s o1 -> False.
+Proof. exact no_precommit_failure. Qed.
+Print Assumptions C03_timeouts_no_failure.
+
+(* non-vacuity of (d): the initial state holds the NewHeight timeout; handling it moves on *)
+Example C03_timeouts_nonvacuous :
+  let E := ex_env 0 in
+  let s := init_state E 1 None in
+  let ti := {| ti_height := 1; ti_round := 0; ti_step := SNewHeight |} in
+  cs_halted s = false /\ live_timeout s ti /\
+  pos (fst (handle E s (ITimeout ti))) = (1, 0, 3).
+Proof. vm_compute. repeat split; auto. Qed.
+
+(* (a) the complete valid proposal (message, then its single part) at step Propose or earlier
+   makes the machine sign a prevote: for the proposal when unlocked, for its locked block when
+   locked (so: for the proposal when locked on it) *)
+Theorem C03_progress_prevote :
+  forall (E : env) (s : cstate) (p : proposal) (b : block) (s1 : cstate) (o1 : list output) (s2 : cstate) (o2 : list output),
+    cs_halted s = false -> step_rank (cs_step s) <= 3 ->
+    cs_proposal s = None ->
+    (cs_pparts s = None \/ cs_pparts s = Some (new_parts (snd (pr_bid p)))) ->
+    good_proposal E s p b ->
+    handle E s (IProposal p) = (s1, o1) ->
+    handle E s1 (IPart (cs_height s) (snd (pr_bid p)) 0%N (Some b)) = (s2, o2) ->
+    let target := match cs_lblock s with
+                  | Some lb => block_id_of lb (cs_lparts s)
+                  | None => Some (pr_bid p)
+                  end in
+    o1 = [] /\
+    exists rest,
+      o2 = (if is_validator E then [OSignVote PREVOTE (cs_height s) (cs_round s) target] else []) ++ rest /\
+      (o_maj23 (prevotes (cs_votes s) (cs_round s)) = None ->
+         rest = [] /\ cs_halted s2 = false /\ cs_height s2 = cs_height s /\ cs_round s2 = cs_round s /\
+         cs_step s2 = SPrevote /\ cs_proposal s2 = Some p /\ cs_pblock s2 = Some b /\
+         cs_pparts s2 = Some (one_part (snd (pr_bid p))) /\ cs_scheduled s2 = cs_scheduled s /\ same_locks s s2).
+Proof. exact progress_prevote. Qed.
+Print Assumptions C03_progress_prevote.
+
+(* (b) at step Prevote / PrevoteWait, holding the complete proposal: the prevote that completes
+   +2/3 for the proposal block makes the machine lock it in this round and sign a precommit for
+   it (whatever it was locked on before, from an earlier round) *)
+Theorem C03_progress_precommit :
+  forall (E : env) (s : cstate) (v : vote) (peer : N) (hv' : hvs) (e : verr) (hb : N) (ph : psh)
+         (p : proposal) (b : block) (s' : cstate) (o : list output),
+    cs_halted s = false -> cs_height s = v_height v -> cs_round s = v_round v ->
+    (cs_step s = SPrevote \/ cs_step s = SPrevoteWait) ->
+    v_type v = PREVOTE ->
+    hv_add_vote (cs_votes s) v peer = (hv', true, e) ->
+    o_maj23 (prevotes hv' (v_round v)) = Some (Some (hb, ph)) ->
+    cs_proposal s = Some p -> (pr_polr p < 0 \/ o_has_maj23 (prevotes hv' (pr_polr p)) = true) ->
+    cs_pblock s = Some b -> b_hash b = hb -> b_valid b = true ->
+    (cs_lblock s = None \/ cs_lround s < cs_round s) ->
+    0 <= cs_round s <= hv_round hv' ->
+    is_validator E = true ->
+    handle E s (IVote v peer) = (s', o) ->
+    In (OSignVote PRECOMMIT (cs_height s) (cs_round s) (Some (hb, ph))) o /\
+    cs_halted s' = false /\ cs_step s' = SPrecommit /\ cs_lround s' = cs_round s /\
+    exists lb, cs_lblock s' = Some lb /\ b_hash lb = hb.
+Proof. exact progress_precommit. Qed.
+Print Assumptions C03_progress_precommit.
+
+(* (c) at step Precommit, holding the block with its complete part set: the precommit that
+   completes +2/3 for it makes the machine decide it (C03_commit_without_block is the variant
+   in which the block arrives after the precommits) *)
+Theorem C03_progress_decide :
+  forall (E : env) (s : cstate) (v : vote) (peer : N) (hv' : hvs) (e : verr) (hb : N) (ph : psh)
+         (b : block) (pp : partset) (s' : cstate) (o : list output),
+    cs_halted s = false -> cs_height s = v_height v -> cs_round s = v_round v ->
+    cs_step s = SPrecommit -> v_type v = PRECOMMIT ->
+    hv_add_vote (cs_votes s) v peer = (hv', true, e) ->
+    o_maj23 (precommits hv' (v_round v)) = Some (Some (hb, ph)) ->
+    cs_pblock s = Some b -> b_hash b = hb -> b_valid b = true ->
+    cs_pparts s = Some pp -> pt_header pp = ph -> pt_complete pp = true ->
+    (hashes_to (cs_lblock s) hb = true -> cs_lblock s = Some b /\ cs_lparts s = Some pp) ->
+    handle E s (IVote v peer) = (s', o) ->
+    In (ODecide (cs_height s) (cs_round s) hb) o.
+Proof. exact progress_decide. Qed.
+Print Assumptions C03_progress_decide.
+
+(* the votes of validators that have not voted yet in a vote set, all for one block id: each
+   is added, the block's tally grows by the voter's power, the recorded majority is that block
+   as soon as the tally reaches the quorum (C03/Tally.v) *)
+Theorem C03_tally_step :
+  forall (B : blockid) (i : nat) (rem : list nat) (vs : voteset) (power : Z) (v : vote),
+    open_for B (i :: rem) vs -> ~ In i rem -> good_vote vs B i power v ->
+    exists vs', vs_add vs v = (vs', true, E_none) /\ open_for B rem vs' /\
+      tally B vs' = tally B vs + power /\ same_frame vs vs' /\
+      (forall m, vs_maj23 vs = Some m -> vs_maj23 vs' = Some m).
+Proof. exact vs_add_open. Qed.
+Print Assumptions C03_tally_step.
+
+Theorem C03_tally_majority :
+  forall (B : blockid) (rem : list nat) (vs : voteset),
+    open_for B rem vs -> quorum (vs_vals vs) <= tally B vs -> vs_maj23 vs = Some B.
+Proof. exact open_for_majority. Qed.
+Print Assumptions C03_tally_majority.
+
+(* ================================================================== a synchronous round of a
+   network of correct validators' machines, closed loop (C03/SyncNet.v): every machine handles
+   the proposal and its part, then the prevotes ALL machines signed in that phase, then the
+   precommits ALL machines signed in the second phase ([schedule] is computed from the machines'
+   own outputs).  Every machine decides the proposed block in this round.  Faulty validators
+   are silent during the round; votes they cast before may sit in the vote sets. *)
+Theorem C03_sync_round_decides_network :
+  forall (vals : valset) (h r : Z) (p : proposal) (b : block) (hb : N) (ph : psh)
+         (sig : nat -> N -> N) (peer : nat -> N) (ms : list machine),
+    pr_bid p = (hb, ph) -> b_hash b = hb -> b_valid b = true -> fst ph = 1%N ->
+    NoDup (idxs ms) ->
+    (forall m, In m ms -> is_validator (m_env m) = true) ->
+    (forall m, In m ms -> exists a pw, nth_error vals (m_idx m) = Some (a, pw) /\ a <> 0%N /\ 0 <= pw) ->
+    (forall m, In m ms -> ready (m_env m) h r p b hb ph (idxs ms) vals (m_state m)) ->
+    quorum vals <= correct_power vals ms ->
+    forall m, In m ms ->
+      In (ODecide h r hb) (concat (snd (run (m_env m) (m_state m) (schedule vals h p b ph sig peer ms)))).
+Proof. exact sync_schedule_decides. Qed.
+Print Assumptions C03_sync_round_decides_network.
+
+(* the link to the value-level argument: the machines abstracted by [abs] (power, lock round /
+   locked block hash, valid round / valid block hash) satisfy Sync.v's invariant — in the weaker
+   form Inv' that the code can have, see C03_lock_above_valid_reachable — with the known polkas, the unlock rule has been applied (see C03_sync_without_settled_refuted), and the
+   proposal is the one Sync.v's good round asks for (premise of C03_good_round_decides) *)
+Theorem C03_sync_round_decides_on_model :
+  forall (vals : valset) (h r : Z) (p : proposal) (b : block) (hb : N) (ph : psh)
+         (sig : nat -> N -> N) (peer : nat -> N) (ms : list machine)
+         (pol : list polka) (fresh : value) (mp : machine) (faulty_power : Z),
+    pr_bid p = (hb, ph) -> b_hash b = hb -> b_valid b = true -> fst ph = 1%N ->
+    NoDup (map m_idx ms) ->
+    (forall m, In m ms -> is_validator (m_env m) = true) ->
+    (forall m, In m ms -> exists a pw, nth_error vals (m_idx m) = Some (a, pw) /\ a <> 0%N /\ 0 <= pw) ->
+    (forall m, In m ms -> ready_core (m_env m) h r p b hb ph (map m_idx ms) vals (m_state m) /\
+                          lock_wf r b hb ph (m_state m)) ->
+    Inv' pol (nodes vals ms) ->
+    (forall n, In n (nodes vals ms) -> unlock pol n = n) ->
+    In mp ms ->
+    hb = proposal_of fresh (unlock pol (abs (power_of vals (m_idx mp)) (m_state mp))) ->
+    Model.total_power vals = Sync.total_power (nodes vals ms) + faulty_power -> 0 <= faulty_power ->
+    3 * faulty_power < Model.total_power vals ->
+    ((forall n, In n (map (unlock pol) (nodes vals ms)) -> n_lock n = None) \/
+     (exists star, is_latest pol star /\ snd star = Some hb)) ->
+    forall m, In m ms ->
+      In (ODecide h r hb) (concat (snd (run (m_env m) (m_state m) (schedule vals h p b ph sig peer ms)))).
+Proof. exact sync_round_decides_on_model. Qed.
+Print Assumptions C03_sync_round_decides_on_model.
+
+(* non-vacuity: four validators of power 10, three correct machines that entered round 0 of
+   height 1 through the timeout path; the hypotheses hold and the decision is computed *)
+Example C03_sync_round_nonvacuous :
+  (forall m, In m ex_ms -> ready (m_env m) 1 0 ex_p ex_b 7%N (1%N, 70%N) (map m_idx ex_ms) ex_vals (m_state m)) /\
+  quorum ex_vals <= correct_power ex_vals ex_ms /\
+  length (schedule ex_vals 1 ex_p ex_b (1%N, 70%N) ex_sig ex_peer ex_ms) = 8%nat /\
+  forallb (fun m => existsb is_decide
+                      (concat (snd (run (m_env m) (m_state m) (schedule ex_vals 1 ex_p ex_b (1%N, 70%N) ex_sig ex_peer ex_ms)))))
+          ex_ms = true.
+Proof. exact (conj ex_ready (conj ex_quorum (conj ex_schedule_length ex_all_decide))). Qed.
+
+(* REFUTED without "the unlock rule has been applied": a reachable machine that holds the polka
+   of round 1 for block 7 among its prevotes, is in round 2, and is still locked on block 5 from
+   round 0 — Sync.v releases the lock and has it prevote the proposal (7, POL round 1); the code
+   model prevotes 5.  consensus/state.go applies the unlock rule only when the completing
+   prevote is added while vote.Round <= cs.Round and in enterPrecommit of that round; round
+   skipping jumps over both (C03/Unsettled.v; replayed on the real code, fixes/F70). *)
+Theorem C03_sync_without_settled_refuted :
+  exists (E : env) (ins : list input) (pol : list polka) (p : proposal) (b : block),
+    let s := fst (run E (init_state E 1 None) ins) in
+    let n := abs 10 s in
+    cs_halted s = false /\ (cs_height s, cs_round s, cs_step s) = (1, 2, SPropose) /\
+    cs_proposal s = None /\ cs_pparts s = None /\ good_proposal E s p b /\
+    (forall rr v, In (rr, Some v) pol -> exists ph, o_maj23 (prevotes (cs_votes s) rr) = Some (Some (v, ph))) /\
+    Inv pol [n] /\
+    n_lock (unlock pol n) = None /\
+    is_latest pol (1, Some (b_hash b)) /\
+    prevote_of (b_hash b) (unlock pol n) = b_hash b /\
+    n_lock n = Some (0, 5%N) /\
+    concat (snd (run E s [IProposal p; IPart 1 (snd (pr_bid p)) 0%N (Some b)])) =
+      [OSignVote PREVOTE 1 2 (Some (5%N, (1%N, 50%N)))].
+Proof. exact sync_without_settled_refuted. Qed.
+Print Assumptions C03_sync_without_settled_refuted.
+
+(* ================================================================== Sync.v under the weaker
+   invariant Inv' (valid round >= lock round OR valid block = locked block): the clause
+   inv_lock_valid of Inv is not an invariant of the code (second theorem below: enterPrecommit
+   re-locks with LockedRound = round without the round's proposal block, the valid round stays
+   behind), Inv' is implied by Inv and suffices for the three theorems. *)
+Theorem C03_inv_weaken :
+  forall (pol : list polka) (nodes : list node), Inv pol nodes -> Inv' pol nodes.
+Proof. exact Inv_weaken. Qed.
+Print Assumptions C03_inv_weaken.
+
+Theorem C03_lock_above_valid_reachable :
+  exists (E : env) (ins : list input),
+    let s := fst (run E (init_state E 1 None) ins) in
+    let n := abs 10 s in
+    let pol : list polka := [(0, Some 5%N); (1, Some 5%N)] in
+    cs_halted s = false /\
+    (forall rr v, In (rr, Some v) pol -> exists ph, o_maj23 (prevotes (cs_votes s) rr) = Some (Some (v, ph))) /\
+    n_lock n = Some (1, 5%N) /\ n_valid n = Some (0, 5%N) /\
+    ~ Inv pol [n] /\ Inv' pol [n].
+Proof. exact lock_above_valid_reachable. Qed.
+Print Assumptions C03_lock_above_valid_reachable.
+
+Theorem C03_unlock_convergence_weak :
+  forall (pol : list polka) (nodes : list node) (n : node) (lr : Z) (lv : value) (star : polka),
+    Inv' pol nodes -> is_latest pol star -> In n nodes ->
+    n_lock (unlock pol n) = Some (lr, lv) ->
+    snd star = Some lv /\ exists vr, n_valid (unlock pol n) = Some (vr, lv).
+Proof. exact unlock_convergence'. Qed.
+Print Assumptions C03_unlock_convergence_weak.
+
+Theorem C03_good_round_decides_weak :
+  forall (pol : list polka) (nodes : list node) (proposer : node) (fresh : value) (total faulty_power : Z),
+    Inv' pol nodes -> In proposer nodes ->
+    total = Sync.total_power nodes + faulty_power -> 0 <= faulty_power -> 3 * faulty_power < total ->
+    let nodes' := map (unlock pol) nodes in
+    let prop := proposal_of fresh (unlock pol proposer) in
+    ((forall n, In n nodes' -> n_lock n = None) \/
+     (exists star, is_latest pol star /\ snd star = Some prop)) ->
+    (forall n, In n nodes' -> prevote_of prop n = prop) /\
+    3 * power_for prop (map (fun n => (n, prevote_of prop n)) nodes') > 2 * total.
+Proof. exact good_round_decides'. Qed.
+Print Assumptions C03_good_round_decides_weak.
+
+Theorem C03_locked_node_is_good_proposer_weak :
+  forall (pol : list polka) (nodes : list node) (n : node) (lr : Z) (lv fresh : value) (star : polka),
+    Inv' pol nodes -> is_latest pol star -> In n nodes ->
+    n_lock (unlock pol n) = Some (lr, lv) ->
+    snd star = Some (proposal_of fresh (unlock pol n)).
+Proof. exact locked_node_is_good_proposer'. Qed.
+Print Assumptions C03_locked_node_is_good_proposer_weak.
+
+(* six further synchronous rounds of the refutation's machine: it prevotes its old locked block
+   in every one of them and is still locked at the end (see C03/Unsettled.v) *)
+Example C03_unsettled_six_rounds :
+  let '(s', os) := run w_env w_state w_suffix in
+  w_signed_votes os =
+    flat_map (fun rho => [(PREVOTE, 1, rho, w_X); (PRECOMMIT, 1, rho, None)]) [2; 3; 4; 5; 6; 7] /\
+  (cs_halted s', cs_height s', cs_round s', cs_step s') = (false, 1, 8, SPropose) /\
+  (cs_lround s', cs_lblock s') = (0, Some {| b_hash := 5%N; b_valid := true |}) /\
+  existsb (fun o => match o with ODecide _ _ _ => true | _ => false end) (concat os) = false.
+Proof. exact w_six_rounds_without_progress. Qed.
+
+(* ================================================================== every step that waits for a
+   timeout has it in the ticker (C03/Pending.v): an invariant of ALL runs from the initial
+   state; hence in every reachable non-halted state whose step is NewHeight, Propose or
+   PrevoteWait, or whose precommit-wait flag is set (before Commit), there IS a timeout in the
+   ticker whose handling moves (height, round, step) strictly forward. *)
+Theorem C03_pending_timeouts :
+  forall (E : env) (height : Z) (lc : option voteset) (ins : list input),
+    Pend (fst (run E (init_state E height lc) ins)).
+Proof. exact pending_timeouts. Qed.
+Print Assumptions C03_pending_timeouts.
+
+Theorem C03_reachable_never_stuck :
+  forall (E : env) (height : Z) (lc : option voteset) (ins : list input),
+    let s := fst (run E (init_state E height lc) ins) in
+    cs_halted s = false ->
+    (cs_step s = SNewHeight \/ cs_step s = SPropose \/ cs_step s = SPrevoteWait \/
+     (cs_triggered s = true /\ cs_step s <> SCommit)) ->
+    exists ti, live_timeout s ti /\
+      forall s' o, handle E s (ITimeout ti) = (s', o) ->
+        lt3 (pos s) (pos s') \/ (cs_halted s' = true /\ exists o1, precommit_failure (cs_round s) s o1).
+Proof. exact reachable_never_stuck. Qed.
+Print Assumptions C03_reachable_never_stuck.
